@@ -3,7 +3,7 @@ import SleapVerif.Model.Arch
 import SleapVerif.Gen.TranslatedArch
 /-! Driver for C14.
 
-`model fam variant filters p q maxStride bos stem cpb middle upInterp inCh fixMid fixWrap <nh> (os ch)* <nc> (h w)*`
+`model fam variant filters p q maxStride bos stem cpb middle upInterp inCh fixMid fixWrap <nh> (head spec)* <nc> (h w)*`
   → `construct-raise <err>` | `built L <labels> O <dec out> I <head in> | <last call>` with
     `<last call>` = `fwd-raise <err>` | `ok G <n> (label ch h w)* H <n> (ch h w)*`
   (the calls are a history on one module: first call fresh pools, later calls stale pools).
@@ -28,6 +28,20 @@ def fwdStr : Res Forward → String
     " H " ++ toString f.outs.length ++ " " ++
       " ".intercalate (f.outs.map fun (c, h, w) => s!"{c} {h} {w}")
 
+/-- head spec: `c <os> <n> p1 … pn` (confmaps over a part list) | `k <os>` (centroid) |
+    `p <os> <n> u1 v1 … un vn` (PAFs over an edge list).  The channel count is computed HERE, by
+    the model, from the list. -/
+def pHead : P Head := do
+  let kind ← tok
+  let os ← nat
+  match kind with
+  | "c" => do let parts ← listOf nat; pure ((HeadKind.confmaps parts).toHead os)
+  | "k" => pure (HeadKind.centroid.toHead os)
+  | "p" => do
+      let edges ← listOf (do let u ← nat; let v ← nat; pure (u, v))
+      pure ((HeadKind.pafs edges).toHead os)
+  | _ => failure
+
 def pCfg : P (Cfg × List (Nat × Nat)) := do
   let fam ← tok
   let fam ← match fam with
@@ -36,7 +50,7 @@ def pCfg : P (Cfg × List (Nat × Nat)) := do
   let variant ← nat; let filters ← nat; let p ← nat; let q ← nat; let ms ← nat; let bos ← nat
   let stem ← nat; let cpb ← nat; let mid ← bool; let upi ← bool; let inCh ← nat
   let fixMid ← bool; let fixWrap ← bool
-  let heads ← listOf (do let os ← nat; let ch ← nat; pure ({ os := os, ch := ch } : Head))
+  let heads ← listOf pHead
   let calls ← listOf (do let h ← nat; let w ← nat; pure (h, w))
   pure ({ fam := fam, variant := variant, filters := filters, rate := ⟨p, q⟩, maxStride := ms, bos := bos,
           stem := stem, cpb := cpb, middle := mid, upInterp := upi, inCh := inCh, heads := heads,
